@@ -35,12 +35,34 @@ def unL(tok):
     return "".join(chr(int(x)) for x in b.split(",")) if b else ""
 
 
+class PBytes(bytes):
+    """A large periodic payload that is written into case lines with the compact token P<len>:<hexpattern>
+    (pattern repeated / truncated to <len> bytes; understood by h_util::parse_b and Dcommon.parse_b)."""
+    tok = None
+
+
+def pbytes(n, pattern):
+    pattern = bytes(pattern) or b"\0"
+    b = PBytes((pattern * (n // len(pattern) + 1))[:n])
+    b.tok = "P%d:%s" % (n, pattern.hex())
+    return b
+
+
 def B(b):
+    if isinstance(b, PBytes) and b.tok:
+        return b.tok
     return "B" + bytes(b).hex()
 
 
 def unB(tok):
+    if tok[0] == "P":
+        n, pat = tok[1:].split(":", 1)
+        return pbytes(int(n), bytes.fromhex(pat))
     return bytes.fromhex(tok[1:])
+
+
+# what the size field of a format can store (F21: compress rejects anything longer with InputTooLarge)
+CODEC_LIMIT = {"10": 1 << 24, "13": 1 << 32}
 
 
 def esc(s):
@@ -198,7 +220,8 @@ class FsCase:
 
     def payloads(self):
         """every byte string handed to the byte-level write (directly or through an archive writer)"""
-        return set(bytes(o[3]) for o in self.ops if o[0] == "W") | set(bytes(o[-1]) for o in self.ops if o[0] in ("WA", "WT"))
+        keep = lambda b: b if isinstance(b, PBytes) else bytes(b)
+        return set(keep(o[3]) for o in self.ops if o[0] == "W") | set(keep(o[-1]) for o in self.ops if o[0] in ("WA", "WT"))
 
 
 _counter = [0]
@@ -428,6 +451,40 @@ def l_exists(layer, comps, tr):
     return l_is_file(layer, comps, tr) or l_is_dir(layer, comps, tr)
 
 
+# The pattern ARGUMENTS the model covers (Model/LayeredFS.v: glob_special / plain_pattern_arg / wf_pattern): glob interprets the
+# caller's pattern, the model reads <ext> / <name> literally, so only arguments free of these characters are generated
+# (review r4, C13-1).  Names of directories and files in the layers are NOT restricted (DIR_NAMES / FILE_NAMES below).
+GLOB_SPECIAL = "*?[]{}\\/"
+
+
+def _coq_glob_special():
+    import re
+    src = open(os.path.join(os.path.dirname(os.path.abspath(__file__)), "..", "coq", "Model", "LayeredFS.v"), encoding="utf-8").read()
+    m = re.search(r"Definition glob_special : list N := \[([0-9; ]*)\]", src)
+    return [int(x) for x in m.group(1).split(";")] if m else None
+
+
+assert _coq_glob_special() == [ord(c) for c in GLOB_SPECIAL], "gen/fsgen.py GLOB_SPECIAL differs from Model/LayeredFS.v glob_special"
+
+
+def plain_pattern_arg(s):
+    """= LayeredFS.plain_pattern_arg"""
+    return not any(ch in GLOB_SPECIAL for ch in s)
+
+
+def wf_pattern(pat):
+    """= LayeredFS.wf_pattern on a pattern token"""
+    k = pat[:2]
+    arg = unL(pat[2:]) if len(pat) > 2 else ""
+    if k in ("PA", "PX", "PS"):
+        return True
+    if k in ("PE", "PR"):
+        return plain_pattern_arg(arg)
+    if k == "PD":
+        return arg not in ("", ".", "..") and plain_pattern_arg(arg)
+    raise ValueError(pat)
+
+
 def pat_matches(pat, rel):
     """pattern token, rel = components below the listed directory (non-empty)."""
     k = pat[:2]
@@ -572,7 +629,15 @@ def check_history(c, impl_out):
             blocked = any(t.get(a, None) is not None for a in anc)     # an ancestor is a file
             can = (not blocked) and (not tr) and len(comps) > 0 and node(t, comps) != "dir"
             key = "/".join(comps)
-            if ret == "ok":
+            too_large = is_compressed_name(game, path) and len(payload) >= CODEC_LIMIT[fmt]
+            if too_large:
+                # the format's size field cannot store the length (F21): the write must fail with the compression error
+                # and change nothing at all
+                if ret != "err:compression":
+                    return where + ": payload of %d bytes cannot be stored as LZ%s: expected a compression error, got %s" % (len(payload), fmt, ret[:60])
+                if new != snap:
+                    return where + ": the rejected write of a too large payload changed the directories"
+            elif ret == "ok":
                 if not can:
                     return where + ": write reported success although the target cannot be a file"
                 for k2 in set(t) | set(new[top]):
@@ -646,10 +711,14 @@ def check_history(c, impl_out):
 
 
 # ----------------------------------------------------------------------------- random cases
-DIR_NAMES = ["d", "m", "sub", ".hid", "sp ace", "日本", "x.lz", "E", "@E", "a[b]", "q?", "st*r", "d.cmp"]
+DIR_NAMES = ["d", "m", "sub", ".hid", "sp ace", "日本", "x.lz", "E", "@E", "a[b]", "q?", "st*r", "d.cmp", "c{d}", "[!a]"]
 FILE_NAMES = ["a.bin", "b.txt", "c.bin.lz", "g.cmp", "h.cms", ".lz", ".txt", "n", "lz", "t.txt", "e_a.bin", "s_g.cmp",
-              "z.lz", "k.cmp", "é.bin", "w x.txt", "a.b.txt", "cmp", ".cms", "a]", "b[1].txt", "u.lz.bak"]
-EXTS = ["txt", "bin", "lz", "cmp", "b.txt", "bin.lz"]
+              "z.lz", "k.cmp", "é.bin", "w x.txt", "a.b.txt", "cmp", ".cms", "a]", "b[1].txt", "u.lz.bak",
+              "{x}.txt", "*.txt", "?.bin", "p.t!", "r.b-c", "v.é"]
+# pattern arguments: all satisfy plain_pattern_arg (asserted below); some with characters that are NOT excluded ('!' '-' '.' ' ' non-ASCII)
+EXTS = ["txt", "bin", "lz", "cmp", "b.txt", "bin.lz", "t!", "b-c", "é", "x.txt"]
+SUB_NAMES = ["sp ace", ".hid", "日本", "x.lz", "@E", "d.cmp"]
+assert all(plain_pattern_arg(x) for x in EXTS + SUB_NAMES)
 
 
 def payload_pool(rng, tier):
@@ -854,8 +923,9 @@ def gen_case(rng, tier, game, lang, focus, pool, codec=CODEC):
             elif r < 0.9:
                 pat = "PR" + L(rng.choice(EXTS))
             else:
-                names = DIR_NAMES[:8] + [q.rstrip("/").split("/")[-1] for q in files[:3]]
-                pat = "PD" + L(rng.choice([x for x in names if x and not any(ch in x for ch in "[]?*")]))
+                names = DIR_NAMES[:8] + SUB_NAMES + [q.rstrip("/").split("/")[-1] for q in files[:3]]
+                pat = "PD" + L(rng.choice([x for x in names if wf_pattern("PD" + L(x))]))
+            assert wf_pattern(pat), pat      # the generator's restriction IS the model's predicate
             ops.append(("L", loc, p, pat))
         else:
             ops.append((k, loc, p))
@@ -890,6 +960,19 @@ def exhaustive_cases(tier, stream="exhaustive-small"):
         for n in range(1, (2 if tier == "quick" else 3) + 1):
             for h in itertools.product(alphabet, repeat=n):
                 out.append(Case(render_case(FsCase(4, 0, st, list(h)), fresh_base()), stream))
+    return out
+
+
+def size_limit_cases(stream="size-limit-F21"):
+    """FE9 / FE10: a payload of 2^24+5 bytes (and of exactly 2^24) written to a name with the compressed suffix must
+    fail with the compression error and store nothing (F21: it used to succeed, store the size 5 and read back 20
+    bytes); afterwards the path does not exist, and a small payload can still be written there and read back."""
+    out = []
+    for game, n, pat, name in ((1, (1 << 24) + 5, b"\x41", "big.cmp"), (0, 1 << 24, b"\x00\x07", "d/big.cms")):
+        big = pbytes(n, pat)
+        ops = [("W", 0, name, big), ("F", 0, name), ("R", 0, name), ("W", 0, name, b"small payload small payload"), ("R", 0, name)]
+        c = FsCase(game, 0, [[("keep.bin", b"\x01\x02")], []], ops)
+        out.append(Case(render_case(c, fresh_base()), stream))
     return out
 
 
